@@ -125,6 +125,36 @@ def check(P, R):
 
     check_add(P, R, f)
     check_decode_order(P, R, f, unq)
+    check_callers(P, R)
+
+
+def check_callers(P, R):
+    """the accessors that feed the scanner: they raise nothing themselves and parse whatever body / query there is"""
+    from ..escape import Escapes
+    E = Escapes(P)
+    q = P.func('ombott.request_pkg.body_mixin:BodyMixin.query')
+    for (cname, origin) in sorted(E.escapes(q)):
+        where = origin.rpartition(' @')[0].split(' ', 1)[-1]
+        R.ob('C18.b', q, None, False, text=f'Request.query may raise {cname} ({where})', detail=
+             f'{cname} from `{where}` can leave Request.query: parsing some raw query string raises instead of terminating normally',
+             why='parsing any string whatsoever terminates without raising', key_extra=f'{cname}:{where}')
+    R.ob('C18.b', q, q.node, True, text='escape analysis of Request.query', nontrivial=True)
+    # POST: the urlencoded branch is entered for every body that is neither multipart nor JSON - whatever the framing
+    po = P.func('ombott.request_pkg.body_mixin:BodyMixin.POST')
+    g = po.cfg
+    for c in [x for x in walk_shallow(po.node) if isinstance(x, ast.Call) and dotted(x.func) == 'parse_qsl']:
+        cn = g.node_of_stmt(c)[0]
+        bad = []
+        for n in g.nodes:
+            if n.kind == 'test' and (g.edge_dominates(n, 'true', cn) or g.edge_dominates(n, 'false', cn)):
+                extra = [x for x in ast.walk(n.ast) if isinstance(x, ast.Attribute) and x.attr in ('content_length', 'chunked', 'method')]
+                extra += [x for x in ast.walk(n.ast) if isinstance(x, ast.Constant) and x.value in ('CONTENT_LENGTH', 'REQUEST_METHOD', 'HTTP_TRANSFER_ENCODING')]
+                if extra:
+                    bad.append(n)
+        R.ob('C18.b', po, c, not bad, text='urlencoded bodies are parsed whatever the framing / declared length', detail='' if not bad else
+             f'the urlencoded branch is guarded by `{short(bad[0].ast)}`: content_length is -1 without a Content-Length header (chunked transfer), so a chunked '
+             f'urlencoded body is never parsed and the form comes back empty',
+             why='URL-encoding pairs as an urlencoded body and parsing yields the same pairs', key_extra='framing-guard')
 
 
 def check_total(P, R, f, unq, seen, depth=0):
